@@ -1,3 +1,4 @@
 //! Shared helpers for the verification harness binaries (one binary per property).
 pub mod rng;
 pub mod coqfmt;
+pub mod panicrec;
